@@ -3,7 +3,7 @@
 From Coq Require Import List NArith ZArith Bool.
 From Verif Require Import lib.Wire c08.Varint c08.SymCrypto gen.Consts_c19 c19.Model c19.Spec
      c19.Proofs_Bytes c19.Proofs_Server c19.Proofs_Step c19.Proofs_Client
-     c19.Proofs_Adv c19.Proofs_Trace c19.Proofs_Inv.
+     c19.Proofs_Adv c19.Proofs_Trace c19.Proofs_Inv c19.Proofs_Mint.
 Import ListNotations.
 Local Open Scope N_scope.
 
@@ -40,6 +40,16 @@ Theorem c19_server_reports_only_proven_generic :
   challenge_proven sv host now p P \/ token_proven sv now p P.
 Proof. exact server_run_proven. Qed.
 Print Assumptions c19_server_reports_only_proven_generic.
+
+(* tokens are issued to proven peers only: whatever the server emits that is a
+   token under its own secret names a peer that THIS request proves with a
+   signature over this server's challenge (nothing of an earlier request, nothing
+   unproven, ever becomes a token) *)
+Theorem c19_tokens_issued_to_proven_peers_only : forall sv host now fresh tbl hdr st pid out,
+  server_step_i sv host now fresh tbl hdr = Some (SOk st pid out) ->
+  minted_ok sv host now (carried tbl hdr) out = true.
+Proof. exact server_step_minted_ok. Qed.
+Print Assumptions c19_tokens_issued_to_proven_peers_only.
 
 (* state minted under a different secret, or altered in any way (anything that
    is not  HMAC_secret(fields) ++ fields) is rejected with ErrInvalidHMAC *)
@@ -248,6 +258,12 @@ Proof. vm_compute. discriminate. Qed.
 Example monitor_rejects_other_hostname : monitor3 (ex_case ex_sv 8 1000 3) <> [].
 Proof. vm_compute. discriminate. Qed.
 Example monitor_rejects_other_identity : monitor3 (ex_case ex_sv 7 1000 4) <> [].
+Proof. vm_compute. discriminate. Qed.
+
+(* an answer that hands a token for peer 3 to a request without any proof is rejected *)
+Example monitor_rejects_token_for_unproven_peer :
+  monitor3 (mkC3 0 ex_sv 7 1000 101 (mkTr true true true false false) [] []
+                 0 0 (-1) [(N_OPAQUE, mk_blob 2 (mkOS true None (Some 3) (atom 100) 7 1000))]) <> [].
 Proof. vm_compute. discriminate. Qed.
 
 (* the client: a full client-initiated handshake in the model ends with the
